@@ -30,6 +30,8 @@ class int(float):
 
     def __neg__(self) -> int:  pass
 
+    def __pos__(self) -> int: pass
+
     # def __pow__(self, power: int, modulo=None) -> int: pass
     # def __pow__(self, power: float, modulo=None) -> float: pass
     # def __pow__(self, power: complex, modulo=None) -> complex: pass
